@@ -1252,8 +1252,8 @@ pub fn run(cfg: &Config, s: &mut Session, rng: &mut Rng) {
     }
     run_device(cfg, s, rng);
     run_ml_build(cfg, s, rng);
-    // known finding C16-markbase-stale-visited-at-split: the class at the split point shares its anchors with
+    // regression for /repo b7790d4 (was finding C16-markbase-stale-visited-at-split): the class at the split point shares its anchors with
     // the previous piece (counted 0), two later classes share theirs legitimately: the second piece is
-    // under-estimated by a whole anchor column and cannot be packed
+    // was under-estimated by a whole anchor column and could not be packed; it must pack now
     mbp_case(s, &mb_shared_column(14, 1312, 6, &[12, 13]));
 }
